@@ -6,6 +6,7 @@
 -/
 import Std.Data.HashMap
 import CSD.Model.ChunkDec
+import CSD.Model.StatCoder
 import CSD.Driver.Check
 
 namespace CSD.Driver
@@ -61,7 +62,7 @@ def runTrace (table : Nat → Option Entry) (k e0 : Nat) (text : List Nat) (byte
   let (lines, outs) := go (text.length + 2) { pend := [], bytes := bytes, strLen := 0, advanced := 0, extracted := e0 } 0 [] []
   (",".intercalate lines, outs)
 
-def checkChunks (e0s textsHex ks cws poss ents treess runss : String) : String := Id.run do
+def checkChunks (e0s textsHex ks cws poss ents treess runss encss : String) : String := Id.run do
   let k := ks.toNat?.getD 0
   let e0 := e0s.toNat?.getD 0
   if k == 0 || k > 16 then return "V chunk-width-outside-1..16"
@@ -139,11 +140,22 @@ def checkChunks (e0s textsHex ks cws poss ents treess runss : String) : String :
   let texts : List (List Nat) := (splitComma textsHex).map fun h => (unhex h).map (·.toNat)
   let runs := if runss == "-" then [] else runss.splitOn "|"
   if runs.length != texts.length then return s!"V runs={runs.length}-texts={texts.length}"
-  for (text, run) in texts.zip runs do
+  let encs := if encss == "-" then [] else encss.splitOn "|"
+  if encs.length != texts.length then return s!"V encs={encs.length}-texts={texts.length}"
+  -- the model of `StatCoder::encodeString` with the exported codewords (`TableMatches` was checked above:
+  -- the codewords are the paths of `t`)
+  let cwOf : Nat → Nat × Nat := fun s => let (b, c) := cw.getD s (0, 0); (c, b)
+  for ((text, run), encImpl) in (texts.zip runs).zip encs do
     match Codes.encode t text with
     | none => if run != "noenc" then return "V text-not-encodable-but-code-ran"
     | some bits =>
-      let (trace, outs) := runTrace table k e0 text (packBits bits)
+      let some bytes := StatCoder.encodeString cwOf text 0 0 [] | return "V model-encoder-fails"
+      let implBytes := match encImpl.splitOn ":" with
+        | [h, _] => (unhex h).map (·.toNat)
+        | _ => []
+      if bytes != implBytes then return s!"V encodeString-bytes-differ model={String.join (bytes.map hex2)} code={encImpl}"
+      if bytes != packBits bits then return "V encodeString-bytes-are-not-the-packed-codewords"
+      let (trace, outs) := runTrace table k e0 text bytes
       if trace != run then return s!"V model-trace-differs model={trace} code={run}"
       -- with padding-swallowing entries (RPHTFC headers) only the first NUL-terminated string of a text is
       -- guaranteed: what follows a terminator starts at the next byte in that format
@@ -156,8 +168,22 @@ def runChunkStream (c : Case) (emit : Nat → String → IO Unit) : IO Unit := d
   for op in c.ops do
     k := k + 1
     match op with
-    | ["chchk", e0, texts, kk, cw, pos, ent, trees, runs] => emit k (checkChunks e0 texts kk cw pos ent trees runs)
+    | ["chchk", e0, texts, kk, cw, pos, ent, trees, runs, encs] => emit k (checkChunks e0 texts kk cw pos ent trees runs encs)
     | ["rdskip"] => emit k "V ok"
     | _ => emit k "V unparsable-export"
 
+/-- The size sweep (`sweep lo hi step`): the harness builds, saves, reloads and probes one dictionary per
+size and checks the answers against the strings themselves; the specification says no size fails. -/
+def runSweep (c : Case) (emit : Nat → String → IO Unit) : IO Unit := do
+  let mut k := 0
+  for op in c.ops do
+    k := k + 1
+    match op with
+    | ["sweep", lo, hi, step] =>
+      let lo := lo.toNat?.getD 0; let hi := min (hi.toNat?.getD 0) c.strs.size; let st := max 1 (step.toNat?.getD 1)
+      let runs := if hi < lo then 0 else (hi - lo) / st + 1
+      emit k s!"SW runs={runs} bad=0 first=0"
+    | _ => emit k "ERR unknown-op"
+
 end CSD.Driver
+
